@@ -65,6 +65,8 @@ func cmdC06(r *RNG, n int, e *Emitter, args []string) {
 		if i%4 == 2 {
 			if i%8 == 2 {
 				genC06Around(r, e, i)
+			} else if i%16 == 6 {
+				genC06Comb(r, e, i)
 			} else {
 				genC06Lattice(r, e, i)
 			}
@@ -212,6 +214,53 @@ func genC06Around(r *RNG, e *Emitter, i int) {
 	}
 	e.Count("family=around")
 	emitC06(e, fmt.Sprint(i), in, l, t, l+w, t+h, GenInfo{})
+}
+
+// comb family: a simple zigzag polygon that enters and leaves the rectangle several times through ONE side with
+// slanted teeth, its connecting part outside, so that the clipped pieces share that rectangle side; any of the four
+// sides, both orientations, every start vertex
+func genC06Comb(r *RNG, e *Emitter, i int) {
+	w, h := r.Range(40, 200), r.Range(60, 300)
+	teeth := 2 + r.Intn(3)
+	// built against the LEFT side of the rectangle (0,0,w,h), y increasing along the zigzag
+	var p clip.Path64
+	y := r.Range(2, h/(2*int64(teeth)+1))
+	for k := 0; k <= teeth; k++ {
+		p = append(p, clip.Point64{X: -r.Range(3, 40), Y: y})
+		y += r.Range(3, h/(2*int64(teeth)+1))
+		if k < teeth {
+			p = append(p, clip.Point64{X: r.Range(3, w-3), Y: y})
+			y += r.Range(3, h/(2*int64(teeth)+1))
+		}
+	}
+	far := -r.Range(50, 90)
+	p = append(p, clip.Point64{X: far, Y: p[len(p)-1].Y}, clip.Point64{X: far, Y: p[0].Y})
+	// map to the chosen side
+	side := r.Intn(4)
+	l, t := r.Range(-50, 50), r.Range(-50, 50)
+	rw, rh := w, h
+	for j := range p {
+		x, yy := p[j].X, p[j].Y
+		switch side {
+		case 1: // right
+			x = w - x
+		case 2: // top
+			x, yy = yy, x
+		case 3: // bottom
+			x, yy = yy, w-x
+		}
+		p[j] = clip.Point64{X: x + l, Y: yy + t}
+	}
+	if side >= 2 {
+		rw, rh = h, w
+	}
+	k := r.Intn(len(p))
+	p = append(append(clip.Path64{}, p[k:]...), p[:k]...)
+	if r.Bool() {
+		p = clip.ReversePath(p)
+	}
+	e.Count("family=comb")
+	emitC06(e, fmt.Sprint(i), clip.Paths64{p}, l, t, l+rw, t+rh, GenInfo{})
 }
 
 func emitC06(e *Emitter, idx string, in clip.Paths64, l, t, rr, b int64, info GenInfo) {
